@@ -78,3 +78,24 @@ def replay(prop, path):
     print('re-running the check for', prop)
     run = D.Run(prop, 'quick', r.get('seed', 1))
     return CHECKS[prop](run)
+
+
+# ------------------------------------------------------------------ C18
+
+@check('C18')
+def c18(run):
+    run.assumptions += ['now_ok: 1e10 <= seconds since year 1 <= 2^62 and normalised nanoseconds (every instant a real clock reports)',
+                        'float64 Duration.Minutes() compared with 10 is modelled on the exact value (validated at the boundary by the correspondence)',
+                        'FixedNow is set (time.Now() is not modelled)']
+    run.trusted += ['Go time.Time arithmetic (Add with truncated division and saturation, After, IsZero, Unix) is modelled in coq/Model/Cwt.v and validated by the cwt correspondence',
+                    'specification coq/Spec/RFC8392.v']
+    D.prove(run, extra_targets=['Model/CwtCorr.vo'])
+    rc, o = D.harness_build()
+    if rc != 0:
+        run.broke('harness build', o[-1500:])
+    else:
+        D.correspond(run, 'cwt', [])
+    run.cov['rule'] = ('boundary lattice (0, now +/- skew +/- 2, 2^31, 2^32, 2^62, 2^63-62135596800 +/- 1, 2^63-1, 2^64-1) x option flags x skews incl. negative, '
+                       'sub-second and MinInt64 x issuer/audience combinations x struct/map path with Go integer kinds, negatives, floats, text, null; '
+                       'distinct_nontrivial = distinct (path, decision, flags, claim classes) keys')
+    return D.finish(run, 'proof')
